@@ -123,7 +123,7 @@ class Fn:
         self.rec = rec
         self.id = rec["id"]
         self.mir = mir or rec["mir"]
-        self.blocks = self.mir["blocks"]
+        self.blocks = self._split_switch_edges(self.mir["blocks"])
         self.locals = self.mir["locals"]
         self.argc = self.mir["argc"]
         self.file = self.mir["file"]
@@ -133,6 +133,58 @@ class Fn:
         self._dom = None
         self._flags = None
         self.promoted = [Fn(facts, rec, m, self) for m in rec.get("promoted", [])] if promoted_of is None and mir is None else []
+
+    @staticmethod
+    def _split_switch_edges(blocks):
+        """Give every outgoing edge of a `switchInt` its own (empty) target block when the original target
+        is also reached from elsewhere.  After this, "block T dominates X" for a switch target T means
+        "taking that edge dominates X", which is what the branch rules ask.  Original block indices are
+        unchanged (new blocks are appended), so the mono call-graph edges keyed by block still line up."""
+        n = len(blocks)
+        npred = [0] * n
+        def succs(t):
+            k = t["t"]
+            out = []
+            if k == "goto":
+                out.append(t["target"])
+            elif k == "switch":
+                out += [b for _, b in t["targets"]] + [t["otherwise"]]
+            elif k in ("call", "drop", "assert"):
+                if t.get("target") is not None:
+                    out.append(t["target"])
+                if isinstance(t.get("unwind"), int):
+                    out.append(t["unwind"])
+            return out
+        for b in blocks:
+            for s_ in set(succs(b["term"])):
+                npred[s_] += 1
+        need = any(b["term"]["t"] == "switch" and any(npred[x] > 1 for x in [y for _, y in b["term"]["targets"]] + [b["term"]["otherwise"]]) for b in blocks)
+        if not need:
+            return blocks
+        out = [dict(b) for b in blocks]
+        for i, b in enumerate(blocks):
+            t = b["term"]
+            if t["t"] != "switch":
+                continue
+            t2 = dict(t)
+            new_targets = []
+            cache = {}
+            def edge(tgt):
+                if npred[tgt] <= 1:
+                    return tgt
+                if tgt not in cache:
+                    out.append({"cleanup": b["cleanup"], "stmts": [], "term": {"t": "goto", "target": tgt, "line": t["line"], "exp": True}, "synthetic": True})
+                    cache[tgt] = len(out) - 1
+                return cache[tgt]
+            # distinct values going to the same target share one edge block only if they are the same edge kind
+            for v, tgt in t["targets"]:
+                cache = {}
+                new_targets.append([v, edge(tgt)])
+            cache = {}
+            t2["targets"] = new_targets
+            t2["otherwise"] = edge(t["otherwise"])
+            out[i] = dict(b, term=t2)
+        return out
 
     # ---- basic structure
     def term(self, bb):
